@@ -1,4 +1,5 @@
 """Shared runner and oracles for the Nucleo worker/tick protocol histories (C06, C07, C12, C13, C19, C20)."""
+import inspect
 import json
 import os
 
@@ -33,7 +34,10 @@ def table(ctx):
 
 def histories(ctx, count=None, extra_seed=0):
     n = count or (300 if ctx["tier"] == "quick" else 4000)
-    rc, out, err, _ = vlib.run([ctx["driver"], "nucleo-gen", str(ctx["seed"] * 31 + extra_seed), str(n)], timeout=600)
+    # the generator walks the model with the real score table (the worker path of a run, hence tick's `running`,
+    # depends on whether the current pattern has matches)
+    tpath = table(ctx)[0]
+    rc, out, err, _ = vlib.run([ctx["driver"], "nucleo-gen", str(ctx["seed"] * 31 + extra_seed), str(n), tpath], timeout=600)
     if rc != 0:
         raise RuntimeError("nucleo-gen failed: " + err[-300:])
     return [l for l in out.splitlines() if l.strip()]
@@ -129,6 +133,8 @@ def generic(ctx, oracle, rule, nhist=None, extra_seed=0):
         res["disagreements"].append({"what": e})
     nobs = 0
     nt = 0
+    # an oracle that declares a parameter `mobs` also gets the model's observation list of the same history
+    wants_model = "mobs" in inspect.signature(oracle).parameters
     for line, io, mo in recs:
         nobs += len(io)
         if io != mo and len(res["disagreements"]) < 30:
@@ -141,7 +147,7 @@ def generic(ctx, oracle, rule, nhist=None, extra_seed=0):
         if io and io[0].startswith("CRASH"):
             res["failures"].append({"class": "crash", "what": "the library crashed (panic / abort inside the worker) on this history: %s -- history: %s" % (io[0][:300], line[:500]), "case": line})
             continue
-        for cls, what in oracle(line, io, sc, ln):
+        for cls, what in (oracle(line, io, sc, ln, mo) if wants_model else oracle(line, io, sc, ln)):
             if len(res["failures"]) < 200:
                 res["failures"].append({"class": cls, "what": what + " -- history: " + line[:500], "case": line})
     res["distinct_nontrivial"] = nt
@@ -150,11 +156,12 @@ def generic(ctx, oracle, rule, nhist=None, extra_seed=0):
     return res
 
 
-RULE = ("model-guided random walks (the extracted protocol model enumerates the ENABLED events; 5 styles: general, writers parked between reservation and publication, restart-heavy, "
-        "zero-timeout ticks racing the end of the run, no initial items): injector threads pushing items of a 12-text pool, pattern edits over a 7-pattern pool with truthful append "
+RULE = ("model-guided random walks (the extracted protocol model enumerates the ENABLED events; 8 styles: general, writers parked between reservation and publication, restart-heavy, "
+        "zero-timeout ticks racing the end of the run, no initial items, cancel-heavy, retype = the worker settles on a pattern and the history ends with a non-append edit directly "
+        "followed by an append edit, stale run at restart = a finished but uncollected run, restart, a zero-timeout tick that times out on the first run over the new stream, observations): injector threads pushing items of a 12-text pool, pattern edits over a 7-pattern pool with truthful append "
         "flags, restarts, ticks with timeout 0 or long, each thread parked at every yield point and stepped by the schedule; every history winds down to quiescence (writers finish, "
         "ticks until running = false). Every observation (tick status, snapshot pattern/count/matches/item data, active_injectors, notify count) is compared with the extracted model "
-        "and checked by the property oracle. Non-trivial = history with a background run and at least one writer parked mid-push.")
+        "and checked by the property oracle (C13's oracle also compares the lock state reported at the run's post-unlock sites with the model's). Non-trivial = history with a background run and at least one writer parked mid-push.")
 
 
 def replay(path):
